@@ -205,7 +205,6 @@ SAME = [
     ('attribute default then override', 'def f(self, t):\n    self.m = None\n    if t:\n        self.m = t.x\n    self.n = 1', 'def f(self, t):\n    self.m = t.x if t else None\n    self.n = 1'),
     ('percent tuple is an f-string', "def f(a, b):\n    return 'x %s y %r' % (a, b)", "def f(a, b):\n    return f'x {a!s} y {b!r}'"),
     ('independent state updates in another order', 'def f(self, n):\n    self._in = True\n    self._can.append(True)\n    self._stk.append(n)', 'def f(self, n):\n    self._stk.append(n)\n    self._in = True\n    self._can.append(True)'),
-    ('flag set from a tested local', 'def f(self):\n    if not self.h():\n        self.t = 0\n        self.s = True\n    else:\n        self.s = False\n    self.p = 1', 'def f(self):\n    b = self.h()\n    if not b:\n        self.t = 0\n    self.s = not b\n    self.p = 1'),
     ('test repeated after an unrelated assignment', 'def f(self):\n    if self.z:\n        self.a = self.b\n    if not self.z and not self.q():\n        g()', 'def f(self):\n    if self.z:\n        self.a = self.b\n    elif not self.q():\n        g()'),
     ('match object is not None', 'def f(s):\n    if RE_X.match(s):\n        return 1\n    return 0', 'def f(s):\n    if RE_X.match(s) is not None:\n        return 1\n    return 0'),
     ('static helper called inside an expression', 'def f(self, ld):\n    self.xs.append(self._rd(ld))',
